@@ -47,17 +47,18 @@ type BlobRef struct {
 }
 
 type Op struct {
-	K      string    `json:"k"`                // append produce subh subd post scan include crash restart
+	K      string    `json:"k"`                // append produce subh subd post scan include crash fault restart
 	Tx     int       `json:"tx,omitempty"`     // append/produce: id of the transaction list (0 = empty block)
 	Script []Outcome `json:"script,omitempty"` // subh/subd: outcomes of the successive DA submit calls (then ok)
 	Blobs  []BlobRef `json:"blobs,omitempty"`  // post: the blobs of one new DA height
-	Kc     int       `json:"kc,omitempty"`     // crash: effects of the includer run that still happen
+	Kc     int       `json:"kc,omitempty"`     // crash/fault: effects (datastore writes, SetFinal calls) of the includer run that still happen
 }
 
 type Replay struct {
 	Seed    int64  `json:"seed"`
 	Case    int    `json:"case"`
 	Mode    string `json:"mode"` // agg full
+	IH      uint64 `json:"ih,omitempty"` // genesis.InitialHeight (0 = 1)
 	History []Op   `json:"history"`
 }
 
@@ -108,8 +109,10 @@ func genHistory(r *rand.Rand, mode string, maxLen int) []Op {
 				h = append(h, Op{K: "subd", Script: genScript(r)})
 			case x < 84:
 				h = append(h, Op{K: "include"})
-			case x < 92:
+			case x < 90:
 				h = append(h, Op{K: "crash", Kc: r.Intn(10)})
+			case x < 94:
+				h = append(h, Op{K: "fault", Kc: r.Intn(10)})
 			default:
 				h = append(h, Op{K: "restart"})
 			}
@@ -142,8 +145,10 @@ func genHistory(r *rand.Rand, mode string, maxLen int) []Op {
 				h = append(h, Op{K: "scan"})
 			case x < 88:
 				h = append(h, Op{K: "include"})
-			case x < 94:
+			case x < 93:
 				h = append(h, Op{K: "crash", Kc: r.Intn(10)})
+			case x < 96:
+				h = append(h, Op{K: "fault", Kc: r.Intn(10)})
 			default:
 				h = append(h, Op{K: "restart"})
 			}
@@ -257,6 +262,8 @@ type caseRun struct {
 	savedH   map[string]bool
 	savedD   map[string]bool
 	nCrash   int
+	ih       uint64
+	deaths   []uint64
 	shared   bool
 	harnessE error
 }
@@ -371,14 +378,15 @@ func (c *caseRun) marksOf(blobs [][]byte, height uint64) []string {
 }
 
 // runLoop starts the real DAIncluderLoop, signals it, waits until everything is blocked, stops it.
-// k >= 0: the process dies after k effects of the run.
-func (c *caseRun) runLoop(k int) {
+// k >= 0: the process dies after k effects of the run (fault: effect k+1 fails instead and the loop returns
+// its error). It returns what GetDAIncludedHeight() of that process says at that instant.
+func (c *caseRun) runLoop(k int, fault bool) uint64 {
 	n := c.nd
 	ctx, cancel := context.WithCancel(c.ctx)
 	errCh := make(chan error, 8)
 	done := make(chan struct{})
 	if k >= 0 {
-		n.bud.arm(k)
+		n.bud.arm(k, fault)
 	}
 	m := n.m
 	go func() { m.DAIncluderLoop(ctx, errCh); close(done) }()
@@ -387,18 +395,34 @@ func (c *caseRun) runLoop(k int) {
 	default:
 	}
 	synctest.Wait()
-	if k >= 0 {
+	seen := m.GetDAIncludedHeight()
+	if k >= 0 && !fault {
 		n.bud.kill()
 		cancel()
 		c.dones = append(c.dones, done)
-		return
+		return seen
 	}
 	cancel()
 	<-done
 	select {
 	case err := <-errCh:
-		c.fail("includer-loop-error", "DAIncluderLoop returned an error: "+err.Error())
+		if !fault {
+			c.fail("includer-loop-error", "DAIncluderLoop returned an error: "+err.Error())
+		}
 	default:
+	}
+	return seen
+}
+
+// modelK: the harness counts datastore writes and SetFinal calls (4 per height); the model has the
+// in-memory publication as a fifth effect after each Put of "d". A process stopped at its (k+1)-th
+// recordable effect has done every publication before it.
+func modelK(k int) int { return k + k/4 }
+
+func (c *caseRun) checkAfterDeath(seen uint64, sig, how string) {
+	c.deaths = append(c.deaths, seen)
+	if after := c.nd.m.GetDAIncludedHeight(); after < seen {
+		c.fail(sig, fmt.Sprintf("the node reported %d %s; after the restart it reports %d", seen, how, after))
 	}
 }
 
@@ -446,7 +470,7 @@ func (c *caseRun) exec(op Op) {
 			c.txOf = append(c.txOf, int(tx))
 			items = append(items, item("IAppend (B %d %d)", h, tx))
 		} else {
-			if c.synced == uint64(len(c.srcTx)) {
+			if c.synced == c.ih-1+uint64(len(c.srcTx)) {
 				if err := c.produce(op.Tx); err != nil {
 					c.harnessE = err
 					return
@@ -469,8 +493,8 @@ func (c *caseRun) exec(op Op) {
 				return
 			}
 			c.synced = next
-			c.txOf = append(c.txOf, c.srcTx[next-1])
-			items = append(items, item("IAppend (B %d %d)", next, c.srcTx[next-1]))
+			c.txOf = append(c.txOf, c.srcTx[next-c.ih])
+			items = append(items, item("IAppend (B %d %d)", next, c.srcTx[next-c.ih]))
 		}
 	case "produce":
 		if err := c.produce(op.Tx); err != nil {
@@ -511,11 +535,11 @@ func (c *caseRun) exec(op Op) {
 		for _, b := range op.Blobs {
 			switch b.Kind {
 			case "h":
-				if x, ok := c.srcHdr[uint64(b.N)]; ok {
+				if x, ok := c.srcHdr[uint64(b.N)+c.ih-1]; ok {
 					blobs = append(blobs, x)
 				}
 			case "d":
-				if x, ok := c.srcData[uint64(b.N)]; ok {
+				if x, ok := c.srcData[uint64(b.N)+c.ih-1]; ok {
 					blobs = append(blobs, x)
 				}
 			default:
@@ -541,7 +565,7 @@ func (c *caseRun) exec(op Op) {
 			<-n.m.VerifDataInCh()
 		}
 	case "include":
-		c.runLoop(-1)
+		c.runLoop(-1, false)
 		items = append(items, "IInclude")
 	case "crash":
 		// marks that exist only in memory and belong to blocks not yet included are lost by this crash
@@ -559,7 +583,7 @@ func (c *caseRun) exec(op Op) {
 				}
 			}
 		}
-		c.runLoop(op.Kc)
+		seen := c.runLoop(op.Kc, false)
 		c.nCrash++
 		n.w.add(effRec{Kind: "boot"})
 		n.cds = n.cds.Materialize(n.cds.Len())
@@ -568,7 +592,29 @@ func (c *caseRun) exec(op Op) {
 			c.harnessE = err
 			return
 		}
-		items = append(items, item("ICrash %d%%nat", op.Kc))
+		c.checkAfterDeath(seen, "reported-height-decreases-across-crash", "at the instant of its death")
+		items = append(items, item("ICrash %d%%nat", modelK(op.Kc)))
+	case "fault":
+		// effect Kc+1 of the run fails; the loop reports the error, the node shuts down cleanly and is started again
+		seen := c.runLoop(op.Kc, true)
+		c.savedH, c.savedD = c.liveMarkSets()
+		n.bud.arm(-1, false)
+		n.bud.mu.Lock()
+		n.bud.dead = false
+		n.bud.mu.Unlock()
+		if err := n.m.SaveCache(); err != nil {
+			c.harnessE = err
+			return
+		}
+		n.bud.kill()
+		n.w.add(effRec{Kind: "boot"})
+		if err := n.boot(c.ctx); err != nil {
+			c.fail("restart-failed", "NewManager failed after a write fault: "+err.Error())
+			c.harnessE = err
+			return
+		}
+		c.checkAfterDeath(seen, "reported-height-decreases-after-write-fault", "while alive, after a failed effect")
+		items = append(items, item("IFault %d%%nat", modelK(op.Kc)))
 	case "restart":
 		c.savedH, c.savedD = c.liveMarkSets()
 		if err := n.m.SaveCache(); err != nil {
@@ -641,11 +687,15 @@ func (c *caseRun) oracle(di, sh uint64) {
 	if di > sh {
 		c.fail("height-above-chain", fmt.Sprintf("DA-included height %d exceeds the chain height %d", di, sh))
 	}
-	if v, ok := c.metaU64(store.DAIncludedHeightKey); (ok && v != di) || (!ok && di != 0) {
+	// (nothing stored yet: 0, or initial height - 1 for a node that starts its count just below the first block)
+	if v, ok := c.metaU64(store.DAIncludedHeightKey); (ok && v != di) || (!ok && di != 0 && di != c.ih-1) {
 		c.fail("reported-differs-from-persisted", fmt.Sprintf("reported %d, metadata d = %d (present %v)", di, v, ok))
 	}
 	// effect log: +1 steps, SetFinal in order and before the report
 	var nd, lastFin uint64
+	if len(c.obs) > 0 && c.obs[0].di == c.ih-1 { // the count started just below the first block
+		nd, lastFin = c.ih-1, c.ih-1
+	}
 	finSeen := map[uint64]bool{}
 	bootSinceFin := false
 	for _, e := range c.nd.w.snapshot() {
@@ -679,7 +729,7 @@ func (c *caseRun) oracle(di, sh uint64) {
 		c.fail("reported-differs-from-persisted", fmt.Sprintf("reported %d but the last stored height is %d", di, nd))
 	}
 	// soundness of every included height, and of the recorded DA heights
-	for h := uint64(1); h <= di && h <= sh; h++ {
+	for h := c.ih; h <= di && h <= sh; h++ {
 		hd, d, err := c.nd.st.GetBlockData(c.ctx, h)
 		if err != nil {
 			c.fail("included-block-missing", fmt.Sprintf("height %d is included but not in the store", h))
@@ -717,7 +767,7 @@ func (c *caseRun) oracle(di, sh uint64) {
 func (c *caseRun) expectedFinal() uint64 {
 	sh, _ := c.nd.m.GetStoreHeight(c.ctx)
 	var h uint64
-	for h = 1; h <= sh; h++ {
+	for h = c.ih; h <= sh; h++ { // the blocks that exist start at the initial height
 		hd, d, err := c.nd.st.GetBlockData(c.ctx, h)
 		if err != nil {
 			break
@@ -728,6 +778,9 @@ func (c *caseRun) expectedFinal() uint64 {
 		if len(d.Txs) != 0 && !c.daHasAnywhere(false, d.DACommitment().String()) {
 			break
 		}
+	}
+	if h-1 < c.ih { // no existing block is completely on the DA layer
+		return 0
 	}
 	return h - 1
 }
@@ -757,7 +810,9 @@ func (c *caseRun) quiesce() {
 	want, di := c.expectedFinal(), c.nd.m.GetDAIncludedHeight()
 	if di < want {
 		sig := "not-eventually-included"
-		if c.mode == "agg" && c.lostMark {
+		if c.ih > 1 && di == 0 {
+			sig = "initial-height-gt1-includer-stuck"
+		} else if c.mode == "agg" && c.lostMark {
 			sig = "aggregator-crash-loses-da-marks"
 		}
 		c.fail(sig, fmt.Sprintf("both parts of every block up to %d are on the DA layer, nothing is pending, the node reports %d and will not advance", want, di))
@@ -771,13 +826,18 @@ type caseOut struct {
 	finalDi  uint64
 	nOps     int
 	nCrash   int
+	ih       uint64
+	deaths   []uint64
 	shared   bool
 	lost     bool
 	err      error
 	panicked string
 }
 
-func runCase(t *testing.T, mode string, hist []Op, idx int, withKeys bool) (out caseOut) {
+func runCase(t *testing.T, mode string, ih uint64, hist []Op, idx int, withKeys bool) (out caseOut) {
+	if ih == 0 {
+		ih = 1
+	}
 	root, err := os.MkdirTemp("", "c07root")
 	if err != nil {
 		out.err = err
@@ -787,7 +847,7 @@ func runCase(t *testing.T, mode string, hist []Op, idx int, withKeys bool) (out 
 	synctest.Test(t, func(t *testing.T) {
 		ctx := context.Background()
 		release := make(chan struct{})
-		c := &caseRun{ctx: ctx, mode: mode, srcHdr: map[uint64][]byte{}, srcData: map[uint64][]byte{}, hashID: map[string]uint64{}, commitID: map[string]uint64{}, savedH: map[string]bool{}, savedD: map[string]bool{}}
+		c := &caseRun{ctx: ctx, mode: mode, ih: ih, srcHdr: map[uint64][]byte{}, srcData: map[uint64][]byte{}, hashID: map[string]uint64{}, commitID: map[string]uint64{}, savedH: map[string]bool{}, savedD: map[string]bool{}}
 		defer func() {
 			if x := recover(); x != nil {
 				out.panicked = fmt.Sprint(x)
@@ -811,7 +871,7 @@ func runCase(t *testing.T, mode string, hist []Op, idx int, withKeys bool) (out 
 			out.err = err
 			return
 		}
-		gen := genesis.NewGenesis("c07", 1, time.Now().UTC(), tsig.Address)
+		gen := genesis.NewGenesis("c07", ih, time.Now().UTC(), tsig.Address)
 		if c.nd, err = newNode(ctx, mode, sg, gen, filepath.Join(root, "node"), release); err != nil {
 			out.err = err
 			return
@@ -821,6 +881,17 @@ func runCase(t *testing.T, mode string, hist []Op, idx int, withKeys bool) (out 
 				out.err = err
 				return
 			}
+		}
+		if ih > 1 { // heights below the initial height: counted by the store height, no block
+			holes := make([]string, ih-1)
+			for i := range holes {
+				holes[i] = "IHole"
+			}
+			c.synced = ih - 1
+			c.groups = append(c.groups, vgen.List(holes))
+			sh, _ := c.nd.m.GetStoreHeight(ctx)
+			nx, err := c.nd.m.IsDAIncluded(ctx, 1)
+			c.obs = append(c.obs, obsRec{c.nd.m.GetDAIncludedHeight(), sh, err == nil && nx})
 		}
 		for _, op := range hist {
 			c.exec(op)
@@ -932,8 +1003,12 @@ func (c *caseRun) coqCase(idx int, withKeys bool) string {
 		v, ok := c.nd.m.DataCache().GetDAIncludedHeight(commitOf(i))
 		dm = append(dm, fmt.Sprintf("(%d, %s)", i, optN(v, ok)))
 	}
-	return fmt.Sprintf("Definition c%d : icase := {| ic_ops := %s;\n ic_obs := %s;\n ic_trace := %s;\n ic_meta := %s;\n ic_hm := %s;\n ic_dm := %s;\n ic_keys := %s |}.",
-		idx, vgen.List(c.groups), vgen.List(obs), vgen.List(trace), vgen.List(meta), vgen.List(hm), vgen.List(dm), vgen.List(keys))
+	var deaths []string
+	for _, d := range c.deaths {
+		deaths = append(deaths, fmt.Sprint(d))
+	}
+	return fmt.Sprintf("Definition c%d : icase := {| ic_ops := %s;\n ic_obs := %s;\n ic_trace := %s;\n ic_death := %s;\n ic_meta := %s;\n ic_hm := %s;\n ic_dm := %s;\n ic_keys := %s |}.",
+		idx, vgen.List(c.groups), vgen.List(obs), vgen.List(trace), vgen.List(deaths), vgen.List(meta), vgen.List(hm), vgen.List(dm), vgen.List(keys))
 }
 
 func caseRng(seed int64, c int) *rand.Rand { return rand.New(rand.NewSource(seed*1000003 + int64(c))) }
@@ -956,6 +1031,7 @@ func TestVerif(t *testing.T) {
 		seed int64
 		c    int
 		mode string
+		ih   uint64
 		hist []Op
 	}
 	var jobs []job
@@ -964,7 +1040,7 @@ func TestVerif(t *testing.T) {
 		if err := vgen.LoadReplay(e.Replay, &rp); err != nil {
 			t.Fatal(err)
 		}
-		jobs = append(jobs, job{rp.Seed, rp.Case, rp.Mode, rp.History})
+		jobs = append(jobs, job{rp.Seed, rp.Case, rp.Mode, rp.IH, rp.History})
 	} else {
 		files, _ := filepath.Glob("../corpus/C07/*.json")
 		if os.Getenv("VERIF_NO_CORPUS") != "" {
@@ -973,7 +1049,7 @@ func TestVerif(t *testing.T) {
 		for _, f := range files {
 			var rp Replay
 			if vgen.LoadReplay(f, &rp) == nil && rp.Mode != "" {
-				jobs = append(jobs, job{rp.Seed, rp.Case, rp.Mode, rp.History})
+				jobs = append(jobs, job{rp.Seed, rp.Case, rp.Mode, rp.IH, rp.History})
 			}
 		}
 		for c := 0; c < e.N; c++ {
@@ -981,7 +1057,11 @@ func TestVerif(t *testing.T) {
 			if c%2 == 1 {
 				mode = "full"
 			}
-			jobs = append(jobs, job{seed: e.Seed, c: c, mode: mode})
+			ih := uint64(1)
+			if c%10 == 4 || c%10 == 9 { // one aggregator and one full-node case in ten start above height 1
+				ih = 2 + uint64(c%3)
+			}
+			jobs = append(jobs, job{seed: e.Seed, c: c, mode: mode, ih: ih})
 		}
 	}
 	maxLen := 22
@@ -997,19 +1077,22 @@ func TestVerif(t *testing.T) {
 		if hist == nil {
 			hist = genHistory(r, j.mode, maxLen)
 		}
-		out := runCase(t, j.mode, hist, ji, ji%10 == 0)
+		out := runCase(t, j.mode, j.ih, hist, ji, ji%10 == 0)
 		if out.err != nil {
 			t.Fatalf("harness error in case %d (seed %d case %d mode %s): %v", ji, j.seed, j.c, j.mode, out.err)
 		}
 		res.Evaluations++
 		res.Count("mode:" + j.mode)
+		if j.ih > 1 {
+			res.Count("history:initial-height-above-1")
+		}
 		for _, op := range hist {
 			res.Count("op:" + op.K)
 			for _, o := range op.Script {
 				res.Count("da-outcome:" + o.Kind)
 			}
-			if op.K == "crash" {
-				res.Count(fmt.Sprintf("crash-after-effects:%d", op.Kc))
+			if op.K == "crash" || op.K == "fault" {
+				res.Count(fmt.Sprintf("%s-after-effects:%d", op.K, op.Kc))
 			}
 		}
 		res.Count(fmt.Sprintf("final-height:%d", min(out.finalDi, 10)))
@@ -1019,7 +1102,7 @@ func TestVerif(t *testing.T) {
 		if out.lost {
 			res.Count("history:aggregator-crash-with-unincluded-marks")
 		}
-		rp := Replay{Seed: j.seed, Case: j.c, Mode: j.mode, History: hist}
+		rp := Replay{Seed: j.seed, Case: j.c, Mode: j.mode, IH: j.ih, History: hist}
 		if out.panicked != "" {
 			out.viol = append(out.viol, "panic")
 			out.what = append(out.what, out.panicked)
@@ -1029,21 +1112,21 @@ func TestVerif(t *testing.T) {
 				continue
 			}
 			sh := vgen.Shrink(hist, func(h []Op) bool {
-				o := runCase(t, j.mode, h, 0, false)
+				o := runCase(t, j.mode, j.ih, h, 0, false)
 				return o.err == nil && hasSig(o, sig)
 			})
 			// then make every crash a plain crash if the failure survives
 			for i := range sh {
-				if sh[i].K == "crash" && sh[i].Kc != 0 {
+				if (sh[i].K == "crash" || sh[i].K == "fault") && sh[i].Kc != 0 && sig != "reported-height-decreases-across-crash" && sig != "reported-height-decreases-after-write-fault" {
 					cand := append([]Op{}, sh...)
 					cand[i].Kc = 0
-					if o := runCase(t, j.mode, cand, 0, false); o.err == nil && hasSig(o, sig) {
+					if o := runCase(t, j.mode, j.ih, cand, 0, false); o.err == nil && hasSig(o, sig) {
 						sh = cand
 					}
 				}
 			}
 			res.Violations = append(res.Violations, vgen.Violation{Signature: sig, What: out.what[vi], Case: ji,
-				Replay: Replay{Seed: j.seed, Case: j.c, Mode: j.mode, History: sh}})
+				Replay: Replay{Seed: j.seed, Case: j.c, Mode: j.mode, IH: j.ih, History: sh}})
 		}
 		if out.panicked != "" {
 			continue
@@ -1059,7 +1142,7 @@ func TestVerif(t *testing.T) {
 		}
 	}
 	res.Distinct = len(distinct)
-	res.Rule = "histories of 4..maxLen operations; even cases on an aggregator (real publishBlock, real submitHeadersToDA/submitDataToDA against a DA double with scripted outcomes: partial acceptance, errors, timeouts, accepted-but-ack-lost), odd cases on a full node (real trySyncNextBlock, blobs posted by a source aggregator's real submitter, real processNextDAHeaderAndData); 35% empty blocks, transaction lists drawn from 3 so that blocks share data commitments; runs of the real DAIncluderLoop under synctest; crashes after 0..9 effects (datastore writes / SetFinal calls) of an includer run, NewManager on the image; clean restarts with SaveCache; every history is followed by a fault-free quiescence suffix (submit what is pending / scan to the DA tip, include) after which the reported height must equal the height up to which both parts of every block are on the DA double; non-trivial = at least 4 operations and final height >= 1; distinct = distinct projected traces"
+	res.Rule = "histories of 4..maxLen operations; even cases on an aggregator (real publishBlock, real submitHeadersToDA/submitDataToDA against a DA double with scripted outcomes: partial acceptance, errors, timeouts, accepted-but-ack-lost), odd cases on a full node (real trySyncNextBlock, blobs posted by a source aggregator's real submitter, real processNextDAHeaderAndData); 35% empty blocks, transaction lists drawn from 3 so that blocks share data commitments; runs of the real DAIncluderLoop under synctest; crashes after 0..9 effects (datastore writes / SetFinal calls) of an includer run with the height the dying process reports sampled at that instant, NewManager on the image; faults (effect k+1 of a run fails, the loop returns its error, clean shutdown, restart); clean restarts with SaveCache; one case in five with genesis.InitialHeight 2..4; every history is followed by a fault-free quiescence suffix (submit what is pending / scan to the DA tip, include) after which the reported height must equal the height up to which both parts of every block are on the DA double; non-trivial = at least 4 operations and final height >= 1; distinct = distinct projected traces"
 	res.Cases = len(cases)
 	header := "From Coq Require Import String NArith List Bool.\nFrom Verif Require Import Base.Keys Model.Includer Check.IncluderCheck."
 	defs = append([]string{"Open Scope N_scope."}, defs...)
